@@ -104,7 +104,8 @@ func genC13(tier, out string, sum *Summary) {
 			if useStr {
 				arr[p].(map[string]any)["k"] = json.Number("1")
 			} else {
-				arr[p].(map[string]any)["k"] = "x"
+				// a string among numbers, whether or not its text looks like a number
+				arr[p].(map[string]any)["k"] = pick([]string{"x", "20", "1", "-3", "1e2", "0.5", "", "1.0"})
 			}
 		} else if mix == 1 && l > 0 {
 			arr[rng.Intn(l)].(map[string]any)["k"] = pick([]any{nil, true, []any{}, map[string]any{}})
@@ -225,6 +226,25 @@ func genC13(tier, out string, sum *Summary) {
 		}
 		if toJSON(arr) != before {
 			sum.direct("input-modified", "sort_by(@, &k)", arr, "the input array was modified")
+		}
+	}
+	// strings whose text is a number do not mix with numbers, wherever they stand
+	for _, txt := range []string{`[3, "20", 1]`, `["20", 3, 1]`, `[3, 1, "20"]`, `[1, "1"]`, `["1", 1]`, `[2, "1e0", 3]`, `[0, "-0"]`, `[5, "4", "3"]`, `["a", 1]`, `[1, "1.0", 1.0]`} {
+		keys := jsonDoc(txt).([]any)
+		arr := make([]any, len(keys))
+		for j, k := range keys {
+			arr[j] = map[string]any{"k": k, "i": json.Number(strconv.Itoa(j))}
+		}
+		for _, q := range []struct {
+			e   string
+			doc any
+		}{{"sort(@)", keys}, {"sort_by(@, &k)", arr}, {"max(@)", keys}, {"min(@)", keys}, {"max_by(@, &k)", arr}, {"min_by(@, &k)", arr}} {
+			o := search(q.e, q.doc)
+			emit(q.e, q.doc, o)
+			sum.count("number-like-strings/" + o.Kind)
+			if !(o.Kind == "err" && len(o.Cats) == 1 && o.Cats[0] == "CInvalidType") {
+				sum.direct("sort-type", q.e, q.doc, "numbers and strings in one array must be an invalid-type error, got "+describe(o))
+			}
 		}
 	}
 	// numbers beyond the range of the decimal format among ordinary ones: whatever the call answers, it never
@@ -439,6 +459,18 @@ func genC16(tier, out string, sum *Summary) {
 				}
 			}
 		}
+	}
+	// JSON text is not touched between the backticks: strings and keys that look like JSON punctuation (a comma
+	// before a closing bracket, brackets, colons, comment marks, a backslash-u that is text) stay what they are
+	for _, str := range []string{"a,]", "a, }", ",]", ", \n]", "[0-9,]+", "{\"k\": 1,}", "k, }", "//", "/* */", "#", "a:b", "[", "]", "{", "}", "\\u0041", "',", "`", "tru", "nul", ",", " ", "\t,\t]"} {
+		q := jsonQuote(str)
+		esc := strings.ReplaceAll(q, "`", "\\`")
+		run("`["+esc+"]`", nil, []any{str}, "json-text-untouched")
+		run("`["+esc+", 12345678901234567890]`", nil, []any{str, json.Number("12345678901234567890")}, "json-text-untouched")
+		run("`{"+esc+": true}`", nil, map[string]any{str: true}, "json-text-untouched")
+		run("`{"+esc+": ["+esc+"]}`."+q, nil, []any{str}, "json-text-untouched")
+		run("`[{\"pattern\": "+esc+"}, 1]`[0].pattern", nil, str, "json-text-untouched")
+		run("`[ "+esc+" , "+esc+" ]`[1]", nil, str, "json-text-untouched")
 	}
 	// runs of backslashes and quotes in raw strings: pairs collapse from the left, one at a time
 	for _, body := range []string{`\\\\`, `\\\\\\`, `\\\\\\\\`, `\\\'`, `\\\\\'`, `\'\\`, `\'\'`, `\\\'\\`, `\\\\\\\'`, `\\\\\\d+`, `\\\\server\\share`, `a\\\\\\\\b`, `\\\\\\\\\\`, `\\x\\\\`, `\\\\\\\'\\\\`} {
